@@ -634,7 +634,10 @@ func snap(ep tcpip.Endpoint, s *side, peer *side) M {
 	m := M{"ok": true, "state": st.State, "err": st.HardError, "cwnd": st.Cwnd, "ssthresh": st.Ssthresh, "outstanding": st.Outstanding,
 		"rto": int(st.RTOms), "resend": st.ResendArmed, "keep": st.KeepArmed, "sndclosed": st.SndClosed, "sndbufused": st.SndBufUsed,
 		"sndqueued": st.SndQueued, "unsent": st.Unsent, "rcvclosed": st.RcvClosed, "rcvbufused": st.RcvBufUsed, "pending": st.Pending,
-		"segq": st.SegQueue, "sndwnd": st.SndWnd, "worker": st.Worker, "dupack": st.DupAck, "fr": st.FRActive}
+		"segq": st.SegQueue, "sndwnd": st.SndWnd, "worker": st.Worker, "dupack": st.DupAck, "fr": st.FRActive,
+		// an armed retransmission timer whose deadline passed more than 2 s ago while the protocol goroutine is idle
+		// will never fire (the runtime timer behind the lazy timer is gone): it counts as "no timer pending"
+		"overdue": int(st.ResendOverdueMs), "deadtimer": st.ResendArmed && st.ResendOverdueMs > 2000}
 	if s.haveI {
 		m["snduna"], m["sndnxt"], m["sndnxtlist"] = rel(st.SndUna, s.iss), rel(st.SndNxt, s.iss), rel(st.SndNxtList, s.iss)
 	}
@@ -851,7 +854,8 @@ func runPair(sc scenario) []M {
 				continue
 			}
 			sa, sb := snap(p.a.ep, p.a, p.b), snap(p.b.ep, p.b, p.a)
-			if sa["ok"] != true || sb["ok"] != true || sa["resend"] == true || sb["resend"] == true || sa["segq"] == true || sb["segq"] == true {
+			pendingTimer := func(m M) bool { return m["resend"] == true && m["deadtimer"] != true }
+			if sa["ok"] != true || sb["ok"] != true || pendingTimer(sa) || pendingTimer(sb) || sa["segq"] == true || sb["segq"] == true {
 				stable = 0
 				continue
 			}
